@@ -10,8 +10,12 @@
 (***************************************************************************)
 EXTENDS Schema
 
+\* ex: the innermost `ex` masters of the chain had ended before the tag (the writer got their Ends; for the reader their
+\* known-size range - or that of the master around them - was exhausted): the verdict is about the chain that is left
+Ex(e) == IF "ex" \in DOMAIN e THEN e.ex ELSE 0
+EffChain(e) == SubSeq(e.chain, 1, Len(e.chain) - Ex(e))
 WriterOk(sch, e) ==
-  LET allowed == PathAllows(sch, e.tag, e.chain) IN
+  LET allowed == PathAllows(sch, e.tag, EffChain(e)) IN
   IF e.w = "other" THEN "C11: the writer answered with something other than ok / unexpected-tag"
   ELSE IF allowed /\ e.w # "ok" THEN "C11: the writer rejected a tag whose declared path matches the chain of open masters"
   ELSE IF ~allowed /\ e.w = "ok" THEN "C11: the writer accepted a tag whose declared path does not match the chain of open masters"
@@ -19,9 +23,10 @@ WriterOk(sch, e) ==
   ELSE ""
 ReaderOk(sch, e) ==
   IF e.r = "na" THEN ""
-  ELSE LET stack == [i \in 1..Len(e.chain) |-> [id |-> e.chain[i], unk |-> e.unk[i]]]
+  ELSE LET ch == EffChain(e)
+           stack == [i \in 1..Len(ch) |-> [id |-> ch[i], unk |-> e.unk[i]]]
            k == ClosedBy(sch, stack, e.tag)
-           allowed == PathAllows(sch, e.tag, SubSeq(e.chain, 1, Len(e.chain) - k)) IN
+           allowed == PathAllows(sch, e.tag, SubSeq(ch, 1, Len(ch) - k)) IN
   IF e.r = "other" THEN "C11: the strict reader answered with something other than the element / a hierarchy error"
   ELSE IF allowed /\ e.r # "ok" THEN "C11: the strict reader rejected an element whose path matches the chain that remains after closing"
   ELSE IF ~allowed /\ e.r = "ok" THEN "C11: the strict reader accepted an element whose path does not match the chain that remains after closing"
